@@ -6,8 +6,9 @@ CONSTANTS
   Extras <- tf_Extras
   PreSizes <- tf_Pre
   PreActive <- Zero
-  MaxSteps = 7
+  MaxWrites = 7
   Dev_RawLenTest = TRUE
+  EmitHist = FALSE
 INIT Init
 NEXT Next
 VIEW View
